@@ -113,7 +113,20 @@ def chk_loop_region_ordered(F):
     return True, '%d stores, all filtered' % len(stores)
 
 
+def chk_scratch_sized_ibs(F):
+    """Every scratch buffer is allocated with exactly internal_buffer_size frames (and Delay's only in init)."""
+    from .props.c02 import scratch_allocations, SIZE_RE
+    al = scratch_allocations(F)
+    if len(al) < 7:
+        return False, 'only %d scratch-buffer allocations found' % len(al)
+    for name, b, d, bb in al:
+        if not SIZE_RE.match(d):
+            return False, '%s is allocated in %s as %s' % (name, b.path, d[:120])
+    return True, '%d allocations, all internal_buffer_size frames' % len(al)
+
+
 CHECKS = {
+    'scratch_sized_ibs': chk_scratch_sized_ibs,
     'delay_line_nonempty': chk_delay_line_nonempty,
     'reverb_filters_nonempty': chk_reverb_filters_nonempty,
     'loop_region_ordered': chk_loop_region_ordered,
